@@ -77,7 +77,9 @@ DiffOf(w, C1, D, t, relink) ==
 \* know what is there and refuses with FileNotFoundError before touching anything (after the F15 repair; before it the
 \* directory was taken to be absent and its files were overwritten as if new)
 Unreadable(w) == w.kind = "dir" /\ \E k \in Keys : w.files[k] # NoFile /\ w.files[k].c = "dangling"
-Begin(t, force, relink, prompt, withState) ==
+\* sp = how the caller wrote the path ("plain", or "slash": with a trailing separator - what tab completion gives for a
+\* directory); no result may depend on it
+Begin(t, force, relink, prompt, withState, sp) ==
     /\ Idle /\ n < MaxCheckouts
     /\ LET C1 == IF Unreadable(ws) THEN cache ELSE Checked(cache, ws, t)
            d == DiffOf(ws, C1, dirobjs, t, relink)
@@ -89,7 +91,7 @@ Begin(t, force, relink, prompt, withState) ==
           /\ args' = [t |-> t, force |-> force, relink |-> relink, prompt |-> prompt, diff |-> d.any, state |-> withState, pcache |-> cache,
                       pre |-> ws, mkroot |-> (t.kind = "tree" /\ Root \in d.add \cup d.mod)]
     /\ pc' = "run" /\ pend' = "-" /\ res' = [kind |-> "running"] /\ touched' = {}
-    /\ act' = [op |-> "Begin", t |-> t, force |-> force, relink |-> relink, prompt |-> prompt, state |-> withState]
+    /\ act' = [op |-> "Begin", t |-> t, force |-> force, relink |-> relink, prompt |-> prompt, state |-> withState, sp |-> sp]
     /\ n' = n + 1
     /\ UNCHANGED <<ws, dirobjs, dev>>
 
@@ -236,7 +238,7 @@ Arrive(c) ==
 Targets == {[kind |-> "none"]} \cup {[kind |-> "file", c |-> c] : c \in Contents}
               \cup {[kind |-> "tree", listing |-> l] : l \in UNION {[S -> Contents] : S \in SUBSET Keys}}
 Next ==
-    \/ \E t \in Targets, f \in BOOLEAN, r \in BOOLEAN, p \in Prompts, st \in BOOLEAN : Begin(t, f, r, p, st)
+    \/ \E t \in Targets, f \in BOOLEAN, r \in BOOLEAN, p \in Prompts, st \in BOOLEAN, sp \in {"plain", "slash"} : Begin(t, f, r, p, st, sp)
     \/ \E k \in AllKeys : RemoveDel(k) \/ PromptDel(k) \/ RemoveNew(k) \/ PromptNew(k) \/ Create(k) \/ CreateDangling(k)
     \/ End \/ Crash \/ EndDoomed
     \/ \E c \in Contents : Evict(c) \/ Corrupt(c) \/ Arrive(c)
